@@ -91,7 +91,11 @@ func genC11(r *Rng, tier string, idx int) *Plan {
 			// ACL DELUSER u racing a login as u on another connection (dice-scheduled at the ACL user-list lock)
 			p.Ops = append(p.Ops, Op{Kind: "race", C: c, S: u, Args: []string{"AUTH", u, Pick(r, c11Pws)}})
 		case x < 62:
-			p.Ops = append(p.Ops, Op{Kind: "auth", C: c, Args: []string{"AUTH", Pick(r, append(names, "nobody")), Pick(r, append(c11Pws, "wrong"))}})
+			pw := Pick(r, append(c11Pws, "wrong"))
+			if r.Chance(0.12) {
+				pw = sha(Pick(r, c11Pws)) // the stored digest itself is not a password
+			}
+			p.Ops = append(p.Ops, Op{Kind: "auth", C: c, Args: []string{"AUTH", Pick(r, append(names, "nobody")), pw}})
 		case x < 68:
 			p.Ops = append(p.Ops, Op{Kind: "auth", C: c, Args: []string{"AUTH", Pick(r, []string{"adminpw", "wrong"})}})
 		case x < 76:
